@@ -469,7 +469,7 @@ def check(ctx):
                               'the element is named after `%s`, a type name, without replacing the spaces (and the constructor of the XER types does not do it either): an unnamed '
                               'SET OF / SEQUENCE OF OCTET STRING is written as <OCTET STRING>, which is not well-formed XML and cannot be decoded' % ast.unparse(raw[0])[:60],
                               stmt='type name used as element name')
-    if n8 < 2:
+    if n8 < 1:
         raise AnalysisError('C02.R8 found only %d children named after their type' % n8)
 
     # ---- R6: a container that skips the per-element conversion for "transparent" element types (a shortcut keyed on isinstance) may do so
